@@ -76,10 +76,19 @@ def _untracked():
 PAYLOAD = 1000000      # V key of "the single field of the enum value held in local l" is l + PAYLOAD (Ok(x) / Some(x) / Err(x) wrappers of decisions)
 
 
+TUPLE = 10000000       # V key of field i of the tuple held in local l is l + TUPLE * (i + 1)  (a helper that returns (new state, flag))
+TUPLE_MAX = 4
+
+
 def vset(st, l, val):
     if l in _untracked() and val is not None and val[0] not in ('qs',):
         val = None
-    items = [(k, v) for k, v in st.V if k != l and (l >= PAYLOAD or k != l + PAYLOAD)]
+    drop = {l}
+    if l < PAYLOAD:
+        drop.add(l + PAYLOAD)
+        for i_ in range(TUPLE_MAX):
+            drop.add(l + TUPLE * (i_ + 1))
+    items = [(k, v) for k, v in st.V if k not in drop]
     if val is not None:
         items.append((l, val))
         items.sort(key=lambda kv: kv[0])
@@ -631,6 +640,14 @@ class Proto:
                 return r + PAYLOAD
         return None
 
+    def _tuple_key(self, fn, pl):
+        """For a place `x.i` on a tuple-typed local x: the V key of that field."""
+        p = [x for x in pl['p'] if x['k'] != 'deref']
+        if len(p) == 1 and p[0]['k'] == 'field' and len(pl['p']) == 1 and clean_ty(fn.local_ty(pl['l'])).startswith('(') and p[0].get('i', 0) < TUPLE_MAX:
+            if pl['l'] not in _untracked():
+                return pl['l'] + TUPLE * (p[0].get('i', 0) + 1)
+        return None
+
     def _operand_val(self, fn, st, o):
         k = o['k']
         if k == 'const':
@@ -643,6 +660,9 @@ class Proto:
         pk = self._payload_key(fn, pl)
         if pk is not None:
             return vget(st, pk)
+        tk = self._tuple_key(fn, pl)
+        if tk is not None:
+            return vget(st, tk)
         if self.is_state_place(pl) or (pl['p'] and all(p['k'] == 'deref' for p in pl['p']) and st.S is not None and self.is_state_expr(fn.expr_of_place(pl))):
             if st.S is None:
                 return ('qs', self.ALL, False)
@@ -754,9 +774,20 @@ class Proto:
             payload = self._operand_val(fn, st, rv['ops'][0])
         elif rv['k'] == 'use' and rv['op']['k'] in ('copy', 'move') and not rv['op']['pl']['p']:
             payload = vget(st, rv['op']['pl']['l'] + PAYLOAD)
+        fields = None
+        if rv['k'] == 'agg' and rv['ak'] == 'tuple' and 0 < len(rv.get('ops', [])) <= TUPLE_MAX:
+            fields = [self._operand_val(fn, st, o_) for o_ in rv['ops']]
+        elif rv['k'] == 'use' and rv['op']['k'] in ('copy', 'move') and not rv['op']['pl']['p'] and clean_ty(fn.local_ty(rv['op']['pl']['l'])).startswith('('):
+            fields = [vget(st, rv['op']['pl']['l'] + TUPLE * (i_ + 1)) for i_ in range(TUPLE_MAX)]
         st = vset(st, l, val)
         if payload is not None and payload[0] in ('enum', 'bool') and l not in _untracked():
             st = vset(st, l + PAYLOAD, payload)
+        if fields and l not in _untracked():
+            for i_, fv in enumerate(fields):
+                if fv is not None and fv[0] in ('enum', 'bool', 'qs'):
+                    items = [(k_, v_) for k_, v_ in st.V if k_ != l + TUPLE * (i_ + 1)] + [(l + TUPLE * (i_ + 1), fv)]
+                    items.sort(key=lambda kv: kv[0])
+                    st = st._replace(V=tuple(items))
         return [st]
 
     def _rvalue_val(self, fn, st, rv, bb, i, record):
